@@ -883,6 +883,9 @@ remove is a private method called by [Stack.Remove].
 */
 func (r *stack) remove(idx int) (slice any, ok bool) {
 
+	r.lock()
+	defer r.unlock()
+
 	var found bool
 	var index int
 	if slice, index, found = r.index(idx); found {
@@ -896,9 +899,6 @@ func (r *stack) remove(idx int) (slice any, ok bool) {
 
 		var R stack = make(stack, 0)
 		R = append(R, cfg)
-
-		r.lock()
-		defer r.unlock()
 
 		// Gather what we want to keep.
 		for i := 1; i < r.len(); i++ {
